@@ -11,7 +11,7 @@ MANIFEST = {
  "design_ref": "DESIGN.md §3 C18",
 }
 def keyq(k):
-    return Q("ipc_key_alloc_k%d" % k, "harness/C18_ipc_key.c", defs=["FAIL_AT=%d" % k], units=base.HASH + ["src/pstring.c", "src/pmem.c"], models=["models/alloc.c", "models/verif.c", "models/libc_stub.c"],
+    return Q("ipc_key_alloc_k%d" % k, "harness/C18_ipc_key.c", hdefs=["FAIL_AT=%d" % k], units=base.HASH + ["src/pstring.c", "src/pmem.c"], models=["models/alloc.c", "models/verif.c", "models/libc_stub.c"],
              unwind=90, timeout=900, funcs=["p_ipc_get_platform_key", "p_crypto_hash_new", "p_crypto_hash_get_string", "p_crypto_hash_free"],
              bounds={"alloc_failure_index": "%d, once or from-k-on" % k})
 # real-key scripts: allocation requests of the success paths: semaphore 6 (object, name copy, 4 inside p_ipc_get_platform_key), shm 12, buffer 13
